@@ -192,6 +192,8 @@ func (lit *levelIterator) Seek(id []byte) error {
 		lit.value = copyBytes(lit.it.Value())
 		return nil
 	}
+	lit.key = nil
+	lit.value = nil
 	return fmt.Errorf("Invalid")
 }
 
@@ -207,6 +209,8 @@ func (lit *levelIterator) SeekReverse(id []byte) error {
 		lit.value = copyBytes(lit.it.Value())
 		return nil
 	}
+	lit.key = nil
+	lit.value = nil
 	return fmt.Errorf("Invalid")
 }
 
